@@ -98,7 +98,9 @@ struct HState {
 }
 
 fn client_addr(cid: usize) -> SocketAddr {
-    format!("10.3.0.{}:{}", cid + 1, 5000 + cid).parse().unwrap()
+    // pairs of clients share an IP address and differ only in the port (a unicast addressed by IP
+    // alone would then reach both)
+    format!("10.3.0.{}:{}", cid / 2 + 1, 5000 + cid).parse().unwrap()
 }
 
 #[derive(Default, Clone)]
